@@ -839,5 +839,5 @@ def lock_join_order(L, repo, rule):
             bad = sorted(set(found)) if held & thread_locks else []
             L.ob(rule, m.rel, qualname(w), "no thread that takes `%s` is joined while it is held (`with %s` region)" % (
                  "/".join(sorted(held)), canon(w.items[0].context_expr)), "no reachable join()", bad, not bad, w.lineno)
-    L.floor(rule, "lock regions of the toolkit", n_regions, 3)
+    L.floor(rule, "lock regions of the toolkit", n_regions, 1)
     L.extra["%s_thread_locks" % rule] = sorted(thread_locks)
